@@ -23,9 +23,9 @@ CFG = {
         "one-sided key among the operands": r"p=\S*(?<=[=,])([AB]-|-[AB])>",
     },
     "gaps": [
-        "every C08 theorem takes the bitset kernel facts as the named hypothesis K : BKernel (Lemmas/StoreOps.lean: is_disjoint / is_subset / intersection_len_bitmap / intersection_len_array / to_array_store specs, statements agreed with the core proof library, which proves them in parallel) - hence the _partial suffix; nothing else is missing: all three relations and all four cardinalities are proved for all well-formed operands",
+        "no proof gap: all three relations and all four cardinalities are proved unconditionally for all well-formed operands (the lemma library's bitset-kernel record BKernel, Lemmas/StoreOps.lean, is inhabited by bKernel from the core library)",
         "well-formedness of the operands (needed for the two early-outs) is the producer table of C04",
     ],
     "level_text": "Theorems (Lean 4, kernel-checked) that the model of is_subset / is_superset / is_disjoint decides the set relation on the operands' element lists and that intersection_len / union_len / difference_len / symmetric_difference_len are the cardinalities of the mathematical results (the wrapping arithmetic never wraps); the model (cmp.rs Pairs, the len short-cut, '(Bitmap, Array) => false', per-kind intersection_len) is tied to the Rust source by running both on the same generated operand pairs in two build profiles. Unbounded quantifier = theorem; tie = sampled.",
-    "level_note": "Trusted: Lean kernel; the hand-written model mirrors the code (checked by correspondence on generated pairs only); Spec.lean as the meaning of the relations and cardinalities. The two early-outs are sound only for canonical (well-formed) values; well-formedness of every producer is C04's producer table. The only assumed facts are the bitset kernel lemmas bundled in the named hypothesis BKernel (evidence coverage.proof_gaps).",
+    "level_note": "Trusted: Lean kernel; the hand-written model mirrors the code (checked by correspondence on generated pairs only); Spec.lean as the meaning of the relations and cardinalities. The two early-outs are sound only for canonical (well-formed) values; well-formedness of every producer is C04's producer table.",
 }
